@@ -22,7 +22,8 @@ Inductive stmt :=
 | Finally (b f : stmt)
 | Loop (b : stmt)              (* for / while: any number of iterations *)
 | If (a b : stmt)
-| Raise | Return | Break | Continue.
+| Raise | Return | Break | Continue
+| Scope (b : stmt)             (* the inlined body of a private helper: its `return` ends the helper only *).
 
 Definition set_hooks (s : state) := St true (evalm s) (dirty s).
 Definition clr_hooks (s : state) := St false (evalm s) (dirty s).
@@ -67,7 +68,9 @@ Inductive run : stmt -> state -> outcome -> state -> Prop :=
 | RRaise s : run Raise s OExc s
 | RReturn s : run Return s ORet s
 | RBreak s : run Break s OBrk s
-| RContinue s : run Continue s OCont s.
+| RContinue s : run Continue s OCont s
+| RScopeP b s o s1 : run b s o s1 -> o <> ORet -> run (Scope b) s o s1
+| RScopeR b s s1 : run b s ORet s1 -> run (Scope b) s ONormal s1.
 
 (* ---------- finite sets of states, canonical (sub-lists of all_states) ---------- *)
 
@@ -184,6 +187,7 @@ Fixpoint post (p : stmt) (X : sset) : outs :=
   | Return => Outs [] [] X [] []
   | Break => Outs [] [] [] X []
   | Continue => Outs [] [] [] [] X
+  | Scope b => let pb := post b X in Outs (union (on pb) (or_ pb)) (oe pb) [] (ob pb) (oc pb)
   end.
 
 (* the decidable check: from any state with no hooks and untouched parameters (eval mode
@@ -201,6 +205,6 @@ Fixpoint raise_lines (p : stmt) : list nat :=
   match p with
   | MayRaise l | Register l | EvalMode l | Forward l | CallApi l => [l]
   | Seq a b | Try a b | Finally a b | If a b => raise_lines a ++ raise_lines b
-  | Loop b => raise_lines b
+  | Loop b | Scope b => raise_lines b
   | _ => []
   end.
